@@ -23,7 +23,10 @@ pub fn powc(a: Z, w: Z) -> Z { if a == (0.0, 0.0) { return if w == (0.0, 0.0) { 
 const I: Z = (0.0, 1.0);
 const ONE: Z = (1.0, 0.0);
 /// ln(1 + w) without forming 1 + w (accurate for small |w|)
-pub fn ln1p(w: Z) -> Z { (0.5 * (2.0 * w.0 + w.0 * w.0 + w.1 * w.1).ln_1p(), w.1.atan2(1.0 + w.0)) }
+pub fn ln1p(w: Z) -> Z {
+    // the expansion |1+w|^2 - 1 = 2 Re w + |w|^2 is only better than forming 1 + w while w is small (next to w = -1 it cancels)
+    if modulus(w) < 0.5 { (0.5 * (2.0 * w.0 + w.0 * w.0 + w.1 * w.1).ln_1p(), w.1.atan2(1.0 + w.0)) } else { ln(add(ONE, w)) }
+}
 /// principal asinh: odd; ln(1 + z + z^2/(1 + sqrt(z^2+1))) for small |z| (no cancellation against 1), ln(2z) for huge |z|
 pub fn asinh(z: Z) -> Z {
     if z.0 < 0.0 { return neg(asinh(neg(z))); }
